@@ -88,7 +88,7 @@ func (c *Ctx) BuildQuery(o *Obligation, produceModels bool) (string, int) {
 		if a.NeedTag != "" && !o.Tags[a.NeedTag] {
 			continue
 		}
-		if o.Top >= 0 && c.topAnc != nil {
+		if o.Top >= 0 && c.topAnc != nil && !a.Always {
 			// path-based slicing: only what was assumed/defined in blocks that can reach the obligation's block
 			anc := c.topAnc[o.Top]
 			if a.HasPred {
